@@ -109,6 +109,11 @@ CLAIMS = {
             'segment position, element position and code, and nothing else for faults that do not alter matching; loop repetition beyond the limit is injected adjacent and interleaved with same-ordinal siblings.',
             'Trusted: CrossHair, z3, the validator callback. Concrete documents, symbolic positions (choice enumeration under the tracer); element-level semantics for symbolic values are C15/C14/C13.',
             'DESIGN.md §5 C03'),
+    'C02': ('other', 'bounded symbolic execution (CrossHair+z3) of the whole pipeline on map-permitted variants of real conformant documents (symbolic choice of the variation)',
+            'Starting from valid documents, every variation the matched map nodes permit (drop optional segments, blank optional elements, any other listed code, repeat a repeatable loop, '
+            'several groups of different types in one interchange) must still be accepted with an all-A acknowledgement. Acceptance for symbolic element definitions/values is C15, syntax C14, envelopes C04.',
+            'Trusted: CrossHair, z3, the validator callback. Only maps with a valid test document are reached; documents are not synthesised from scratch (stated limit). Choice enumeration under the tracer.',
+            'DESIGN.md §5 C02'),
 }
 
 NOT_YET = 'check not built yet in this round (planned: see DESIGN.md §5)'
